@@ -1,6 +1,8 @@
 package rules
 
 import (
+	"sort"
+	"go/types"
 	"fmt"
 	"go/token"
 	"strings"
@@ -23,7 +25,7 @@ func init() {
 				"arguments. With R1-R4, for every device: delivered + held = recorded, by induction over the critical sections (each " +
 				"either adds one to held, moves held to in-flight, delivers in-flight, or adds in-flight back to held).",
 			NotCovered: "the induction over interleavings itself is a paper argument, not mechanised; the uploader's own behaviour.",
-			Rules: map[string]string{"C16-R15": "geoip.File.Refresh clears its caches after installing the new databases, so billing records do not keep the previous database's country and ASN (shared with C05-R10)", "C16-R16": "every transport samples the request's start time after the message has been read", "C16-RC": "class rules (error chains, shadowed results, character classes, crossed arguments, pool constructors, array pools, loop completeness, loop-carried buffers, replacing setters, complete clones, Grow arithmetic, pooled-buffer escape, sorted searches, fresh decode targets, per-iteration objects, whole-message copies, codec guards) over the packages this property rests on", "C16-R14": "the error-class enums declared in backendpb and in metrics agree, and the metrics switches (panicking default) have a case for each value", "C16-R13": "request information attached to a context inside an accept/stream loop is allocated in that iteration; pool constructors build fresh objects", "C16-R12": "the periodic worker that uploads billing records, incl. the final upload on shutdown before the worker stops (shared rule, see C13-R11)", "C16-R11": "a request is served and billed once; the billed location is the one of the client's own address (tables shared with C09-R1 and C05-R5)", "C16-R1": "records only under mu", "C16-R2": "Refresh: upload what was reset, remerge iff failed",
+			Rules: map[string]string{"C16-R17": "geoip.ipToCacheKey returns keys of different types for IPv4 (/24) and IPv6 (/56) networks, so the two families never share a cache entry", "C16-R15": "geoip.File.Refresh clears its caches after installing the new databases, so billing records do not keep the previous database's country and ASN (shared with C05-R10)", "C16-R16": "every transport samples the request's start time after the message has been read", "C16-RC": "class rules (error chains, shadowed results, character classes, crossed arguments, pool constructors, array pools, loop completeness, loop-carried buffers, replacing setters, complete clones, Grow arithmetic, pooled-buffer escape, sorted searches, fresh decode targets, per-iteration objects, whole-message copies, codec guards) over the packages this property rests on", "C16-R14": "the error-class enums declared in backendpb and in metrics agree, and the metrics switches (panicking default) have a case for each value", "C16-R13": "request information attached to a context inside an accept/stream loop is allocated in that iteration; pool constructors build fresh objects", "C16-R12": "the periodic worker that uploads billing records, incl. the final upload on shutdown before the worker stops (shared rule, see C13-R11)", "C16-R11": "a request is served and billed once; the billed location is the one of the client's own address (tables shared with C09-R1 and C05-R5)", "C16-R1": "records only under mu", "C16-R2": "Refresh: upload what was reset, remerge iff failed",
 				"C16-R3": "remerge: insert or add counts", "C16-R4": "Record: new=1, existing+1, metadata from arguments",
 				"C16-R6": "resetRecords hands out the old map and installs a fresh one on every path; recordToProtobuf copies count, device, country, ASN, protocol and time unchanged",
 				"C16-R8": "wiring: the recorder installed for the request path is the one the refresh worker flushes; that worker flushes once more on shutdown and is registered with the signal handler",
@@ -33,6 +35,9 @@ func init() {
 
 func runC16(c *an.Ctx) {
 	classSweep(c, "C16")
+	// ---- R17: the location cache's keys keep the address families apart
+	c.Floor("C16-R17", 1)
+	c16CacheKeyFamilies(c, "C16-R17")
 	// ---- R15: the GeoIP caches are emptied after the new databases are in place (shared with C05-R10); R16: the
 	// request's start time, which becomes the device's last-activity time, is sampled after the message has arrived
 	c.Floor("C16-R15", 2)
@@ -554,4 +559,49 @@ func c16StartTime(c *an.Ctx, rule string) (examined int) {
 			fmt.Sprintf("%d clock samples feed the start time, each taken after the read in its function", len(nows)), bad)
 	}
 	return examined
+}
+
+// c16CacheKeyFamilies: the per-network location cache holds IPv4 /24 and IPv6
+// /56 networks side by side; its keys keep the two apart by their type (a
+// three-byte and a seven-byte array in an interface).  With one key type for
+// both, the IPv4 network a.b.c.0/24 and the IPv6 network aabb:cc00::/56 are the
+// same key, and a device from one is billed with the country and ASN of the
+// other.  ipToCacheKey returns an interface value whose dynamic types differ
+// between the two address families.
+func c16CacheKeyFamilies(c *an.Ctx, rule string) {
+	const k = "geoip.ipToCacheKey"
+	fn := c.Fn(k)
+	key := k + " keeps IPv4 and IPv6 networks apart"
+	if fn == nil {
+		c.Und(rule, key, token.NoPos, "anchor not found")
+		return
+	}
+	c.Analysed(k)
+	dyn := map[string]bool{}
+	iface := false
+	if res := fn.Signature.Results(); res.Len() == 1 {
+		_, iface = res.At(0).Type().Underlying().(*types.Interface)
+	}
+	for _, r := range an.Returns(fn) {
+		for _, v := range r.Results {
+			vals := []ssa.Value{v}
+			if phi, ok := v.(*ssa.Phi); ok {
+				vals = phi.Edges
+			}
+			for _, x := range vals {
+				if mi, ok := x.(*ssa.MakeInterface); ok {
+					dyn[mi.X.Type().String()] = true
+				} else {
+					dyn[x.Type().String()] = true
+				}
+			}
+		}
+	}
+	var ts []string
+	for t := range dyn {
+		ts = append(ts, t)
+	}
+	sort.Strings(ts)
+	c.Check(iface && len(ts) >= 2, rule, key, fn.Pos(), "the key is an interface value of "+strings.Join(ts, " or ")+", one type per address family",
+		"the key has one type for both families ("+strings.Join(ts, ", ")+"): an IPv4 /24 and the IPv6 /56 with the same leading bytes share a cache entry, so one network's country and ASN are reported for the other")
 }
